@@ -175,16 +175,18 @@ class _K:
 
     def _viol(self, callsite, aspect, msg, cls=None):
         """callsite: "name(form)" or (displayed name, base function); cls: class or (displayed class, base class).
-        The same defect shows up under several variants of one call (backend, tuple/wrapper form, option suffix of the
-        class); within a case only the FIRST failing variant (fixed iteration order, simplest first) of a
-        (base function, aspect, base class) is reported, so one defect maps to one signature."""
+        The same defect shows up under the variants of one call that share inputs AND reference: tenalg backend and
+        tuple / wrapper-argument / wrapper-method form.  Within a case only the FIRST failing such variant (fixed order:
+        core before einsum, tuple before wrapper) of a (base function, aspect, class) is reported, so one defect maps to
+        one signature.  Variants with a different reference (complex values, mask, skip_factor, transpose_factors) are
+        never merged: whether they fail alone would depend on the values, and signatures must not."""
         disp, base = callsite if isinstance(callsite, tuple) else (callsite, callsite.split("(")[0])
-        dcls, bcls = cls if isinstance(cls, tuple) else ((cls or self.cls), (cls or self.cls))
+        dcls = cls[0] if isinstance(cls, tuple) else (cls or self.cls)
         self.bad += 1
-        if (base, aspect, bcls) in self.seen:
+        if (base, aspect, dcls) in self.seen:
             self.ctx.count("violating_calls_other_variant_of_reported_defect")
             return
-        self.seen.add((base, aspect, bcls))
+        self.seen.add((base, aspect, dcls))
         self.ctx.violation(f"{self.tag}{disp}/{aspect}/{dcls}", f"{self.tag}{disp}: {msg}; input={self.inputs}")
 
     def call(self, callsite, fn, cls=None):
@@ -252,7 +254,7 @@ def _views(k, names, dense, tensor_fn, unfold_fn, vec_fn, cls=None):
     k.array(names[2], vec_fn, R.vec(dense), cls)
 
 
-def _reject(ctx, k, callsite, kind, fn, convert=None, strict=True):
+def _reject(ctx, k, callsite, kind, fn, convert=None, strict=True, bad=None):
     """fn() is a validating entry point applied to a structurally invalid factor set: it must raise.
     Non-strict kinds (not in the design's list) only demand an error before a dense result exists."""
     ctx.count("reject_checks")
@@ -278,7 +280,8 @@ def _reject(ctx, k, callsite, kind, fn, convert=None, strict=True):
         return
     ctx.outcome("reject:accepted")
     aspect = "invalid-accepted:reconstructs" if (silent and convert is not None) else "invalid-accepted"
-    k._viol(callsite, aspect, f"structurally invalid factor set ({kind}) accepted without error; {after}", cls=kind)
+    k._viol(callsite, aspect, f"structurally invalid factor set ({kind}) accepted without error; {after}; invalid set={_fmt(bad)} "
+            f"(perturbed from the valid input that follows)", cls=kind)
 
 
 # ------------------------------------------------------------------------------------------ the check
@@ -412,11 +415,11 @@ class C03(Check):
                 yield "weights-length", (np.arange(1.0, L + 1), _copy(factors))
 
         for kind, xb in bad_sets():
-            _reject(ctx, k, "CPTensor", kind, lambda: M.CPTensor(xb), lambda o: o.to_tensor())
-            _reject(ctx, k, "_validate_cp_tensor", kind, lambda: M._validate_cp_tensor(xb), lambda o: M.cp_to_tensor(xb))
-            _reject(ctx, k, "cp_to_tensor(tuple)", kind, lambda: M.cp_to_tensor(xb), lambda o: o)
-            _reject(ctx, k, "cp_to_unfolded(tuple)", kind, lambda: M.cp_to_unfolded(xb, 0), lambda o: o)
-            _reject(ctx, k, "cp_norm(tuple)", kind, lambda: M.cp_norm(xb), lambda o: o)
+            _reject(ctx, k, "CPTensor", kind, lambda: M.CPTensor(xb), lambda o: o.to_tensor(), bad=xb)
+            _reject(ctx, k, "_validate_cp_tensor", kind, lambda: M._validate_cp_tensor(xb), lambda o: M.cp_to_tensor(xb), bad=xb)
+            _reject(ctx, k, "cp_to_tensor(tuple)", kind, lambda: M.cp_to_tensor(xb), lambda o: o, bad=xb)
+            _reject(ctx, k, "cp_to_unfolded(tuple)", kind, lambda: M.cp_to_unfolded(xb, 0), lambda o: o, bad=xb)
+            _reject(ctx, k, "cp_norm(tuple)", kind, lambda: M.cp_norm(xb), lambda o: o, bad=xb)
         self._finish(ctx, case, "cp", dense, k)
 
     # ----------------------------------------------------------------------------- Tucker
@@ -483,8 +486,8 @@ class C03(Check):
             yield "too-many-factors", (_copy(core), _copy(factors) + [np.ones((2, 1))])
 
         for kind, xb in bad_sets():
-            _reject(ctx, k, "TuckerTensor", kind, lambda: M.TuckerTensor(xb), lambda o: o.to_tensor())
-            _reject(ctx, k, "_validate_tucker_tensor", kind, lambda: M._validate_tucker_tensor(xb))
+            _reject(ctx, k, "TuckerTensor", kind, lambda: M.TuckerTensor(xb), lambda o: o.to_tensor(), bad=xb)
+            _reject(ctx, k, "_validate_tucker_tensor", kind, lambda: M._validate_tucker_tensor(xb), bad=xb)
         self._finish(ctx, case, "tucker", dense, k)
 
     # ----------------------------------------------------------------------------- TT / TR / TT-matrix (chains of cores)
@@ -575,8 +578,8 @@ class C03(Check):
                 yield "core-ndim-minus-1", cs
 
         for kind, xb in bad_sets():
-            _reject(ctx, k, wname, kind, lambda: Wrap(xb), lambda o: o.to_tensor())
-            _reject(ctx, k, validate.__name__, kind, lambda: validate(xb))
+            _reject(ctx, k, wname, kind, lambda: Wrap(xb), lambda o: o.to_tensor(), bad=xb)
+            _reject(ctx, k, validate.__name__, kind, lambda: validate(xb), bad=xb)
         self._finish(ctx, case, fam, dense, k)
 
     def _run_tt(self, case, ctx, tenalg):
@@ -685,10 +688,10 @@ class C03(Check):
             yield "four-factors", True, (wv, (a_, b_, c_, c_.copy()), ps)
 
         for kind, strict, xb in bad_sets():
-            _reject(ctx, k, "Parafac2Tensor", kind, lambda: M.Parafac2Tensor(xb), lambda o: o.to_tensor(), strict)
-            _reject(ctx, k, "_validate_parafac2_tensor", kind, lambda: M._validate_parafac2_tensor(xb), lambda o: M.parafac2_to_tensor(xb), strict)
-            _reject(ctx, k, "parafac2_to_tensor(tuple)", kind, lambda: M.parafac2_to_tensor(xb), lambda o: o, strict)
-            _reject(ctx, k, "parafac2_to_slices(tuple)", kind, lambda: M.parafac2_to_slices(xb), lambda o: o[0], strict)
+            _reject(ctx, k, "Parafac2Tensor", kind, lambda: M.Parafac2Tensor(xb), lambda o: o.to_tensor(), strict, bad=xb)
+            _reject(ctx, k, "_validate_parafac2_tensor", kind, lambda: M._validate_parafac2_tensor(xb), lambda o: M.parafac2_to_tensor(xb), strict, bad=xb)
+            _reject(ctx, k, "parafac2_to_tensor(tuple)", kind, lambda: M.parafac2_to_tensor(xb), lambda o: o, strict, bad=xb)
+            _reject(ctx, k, "parafac2_to_slices(tuple)", kind, lambda: M.parafac2_to_slices(xb), lambda o: o[0], strict, bad=xb)
         self._finish(ctx, case, "pf2", dense, k)
 
 
